@@ -20,3 +20,26 @@ Theorem C01_ref_steps :
     end.
 Proof. exact C01_ref_steps_proof. Qed.
 Print Assumptions C01_ref_steps.
+
+(* ---- compile correctness for the straight-line fragment (assignments x := y | c | y + c | y - c) ---- *)
+From Theo Require Import Errors GenModel Compile C01Statements Proofs_C01a Proofs_C01b Proofs_C01.
+
+Theorem C01_straightline_partial :
+  forall root r rs,
+    straight root = true -> name_free temp_name_str root = true -> literal_sum root < INT_MAX ->
+    gen true [] (Some root) = Ok r -> gr_ok r = true ->
+    abstract_source (Some root) = Some rs ->
+    exists fuel steps trace rname rvars,
+      run_ref fuel rs = OStop [(rname, rvars)] steps trace /\
+      exists k s vmvars,
+        vm_run k (init (gr_prog r)) = Ok s /\ isDone s = Ok true /\
+        views s = Ok [(rname, vmvars)] /\ same_values vmvars rvars /\
+        (steps <= k)%nat.
+Proof. exact C01_straightline_partial_proof. Qed.
+Print Assumptions C01_straightline_partial.
+
+(* without the hypothesis that no variable is called "Temporary Variable" (a name the scanner cannot produce) the
+   statement is false: such a variable shares a register with a temporary and is missing from the stack map *)
+Theorem C01_straightline_needs_lexable_names : ~ C01_straightline_stmt.
+Proof. exact C01_straightline_refuted. Qed.
+Print Assumptions C01_straightline_needs_lexable_names.
